@@ -85,7 +85,9 @@ fn make_provider(start: &Start, history: usize, seed_xor: u64) -> Result<KeySetP
     match start {
         Start::Fresh => Ok(KeySetProvider::new(history)),
         Start::Loaded { id_offset, nkeys, key_seed } => {
-            let n = (*nkeys as usize).clamp(1, history + 1);
+            // a file stored with a larger history may hold more keys than history+1; cookies are only
+            // issued (and judged) after the load, so the rotation-count model is unaffected
+            let n = (*nkeys as usize).clamp(1, 8);
             let keys: Vec<Vec<u8>> = (0..n).map(|i| w_keys::bytes(key_seed ^ seed_xor ^ (i as u64) << 32, 64)).collect();
             let img = w_keys::image(1_700_000_000, *id_offset, n as u32 - 1, n as u32, &keys);
             w_keys::load(&img, history).map(|x| x.0).map_err(|e| format!("well-formed key file rejected: {e}"))
@@ -100,7 +102,7 @@ impl Property for C26 {
     const ASSUMPTIONS: &'static [&'static str] = &[
         "tamper evidence is cryptographic: a forged/modified cookie decoding by chance (probability about 2^-128) would be reported as a violation",
         "bytes appended after the declared length are outside the statement and not checked",
-        "a loaded key file never has more keys than history+1 (otherwise 'the configured number of previous keys' is not what is valid until the next rotation)",
+        "a loaded key file may hold more keys than history+1 (stored with a larger history); only cookies issued after the load are judged",
     ];
     const QUICK_CASES: u32 = 40_000;
     const THOROUGH_CASES: u32 = 1_600_000;
